@@ -287,9 +287,15 @@ class Context(dict):
         if input_string:
             # names the expression itself binds (assignment expressions) go
             # to the child's own throw-away map, not into context.
-            return eval(input_string,
-                        self._pystring_namespace,
-                        self._pystring_namespace.new_child())
+            try:
+                return eval(input_string,
+                            self._pystring_namespace,
+                            self._pystring_namespace.new_child())
+            finally:
+                # an assignment expression inside a comprehension binds in
+                # globals - i.e straight in the namespace's own dict. Like
+                # the throw-away child map, it must not outlive the eval.
+                self._pystring_namespace.clear_own()
         else:
             # Empty input raises cryptic EOF syntax err, this more human
             # friendly
